@@ -162,9 +162,9 @@ theorem applyEditsIndexed_total (s : Sess) (edits : List IEdit) :
     (applyEditsIndexed s edits).2.1 + (applyEditsIndexed s edits).2.2 = edits.length := by
   unfold applyEditsIndexed
   simp only
-  have hlen : (edits.mergeSort fun a b => decide (a.index ≥ b.index)).length = edits.length := by simp
+  have hlen : (edits.reverse.mergeSort fun a b => decide (a.index ≥ b.index)).length = edits.length := by simp
   rw [← hlen]
-  generalize (edits.mergeSort fun a b => decide (a.index ≥ b.index)) = sorted
+  generalize (edits.reverse.mergeSort fun a b => decide (a.index ≥ b.index)) = sorted
   -- fold invariant: applied + skipped = number of edits processed
   suffices h : ∀ (l : List IEdit) (acc : Sess × Nat × Nat × List (Nat × Nat)),
       (l.foldl (fun (acc : Sess × Nat × Nat × List (Nat × Nat)) (e : IEdit) =>
